@@ -175,6 +175,84 @@ func runC03(w *World, r *Report) {
 		}
 	}
 
+	// ---- a completion is applied completely: both halves of what resolveCompletedTasks computes (the values written to
+	// successors, the control dependencies reported to them) reach the channels at every call site
+	r.Rule("C03.completion-fully-applied", "every caller of resolveCompletedTasks passes the value map to updateValues and the dependency map to updateDependencies before any non-error continuation", 2)
+	{
+		rct := w.Fn("compose", "runner.resolveCompletedTasks")
+		uv := w.Fn("compose", "channelManager.updateValues")
+		ud := w.Fn("compose", "channelManager.updateDependencies")
+		n := 0
+		for _, caller := range w.RepoFuncs("compose") {
+			for _, c := range callsTo(caller, rct) {
+				n++
+				for _, half := range []struct {
+					idx  int
+					fn   *ssa.Function
+					what string
+				}{{0, uv, "values"}, {1, ud, "control dependencies"}} {
+					e := extractOf(c, half.idx)
+					var apply ssa.Instruction
+					if e != nil {
+						for _, a := range callsTo(caller, half.fn) {
+							for _, arg := range a.Common().Args {
+								if arg == ssa.Value(e) {
+									apply = a
+								}
+							}
+						}
+						// … or through a module function that hands that very parameter on to it (updateAndGet)
+						instrs(caller, func(in ssa.Instruction) {
+							ci, ok := in.(ssa.CallInstruction)
+							if !ok || apply != nil {
+								return
+							}
+							sc := staticCallee(ci)
+							if sc == nil || !w.inRepo(sc) {
+								return
+							}
+							for i, arg := range ci.Common().Args {
+								if arg != ssa.Value(e) || i >= len(sc.Params) {
+									continue
+								}
+								for _, inner := range callsTo(sc, half.fn) {
+									for _, ia := range inner.Common().Args {
+										if ia == ssa.Value(sc.Params[i]) {
+											apply = in
+										}
+									}
+								}
+							}
+						})
+					}
+					good := apply != nil
+					wit := "the result is discarded"
+					if good {
+						// no way from the call to a successful continuation (nil-error return, or — for a caller that returns an
+						// error value of its own — any later instruction using the other half) that avoids the application
+						var skip bool
+						skip, wit = pathQuery{fn: caller, from: c, goal: func(in ssa.Instruction) bool {
+							ret, ok := in.(*ssa.Return)
+							if !ok {
+								return false
+							}
+							last := ret.Results[len(ret.Results)-1]
+							return isNilConst(last) || !isErrorType(last.Type()) || isInterruptLike(last)
+						}, avoid: func(in ssa.Instruction) bool { return in == apply }}.exists()
+						good = !skip
+					}
+					r.Check(good, "C03.completion-fully-applied", fmt.Sprintf("%s: %s of resolveCompletedTasks #%d are applied", w.fname(caller), half.what, n), c.Pos(), "passed to "+half.fn.Name()+" before every non-error continuation", "the "+half.what+" computed for a batch of completed tasks are not applied ("+wit+"): a successor keeps waiting for a predecessor that has finished — in a checkpoint written at that point the dependency is lost, and whether the join fires after the resume depends on which sibling was collected before the interrupt ('no tasks to execute')")
+				}
+			}
+		}
+		if n < 2 {
+			r.Fail("C03.completion-fully-applied", "callers of resolveCompletedTasks", rct.Pos(), fmt.Sprintf("%d call sites found (floor 2)", n))
+		}
+	}
+
+	r.Rule("C03.skip-decision-order-free", "a DAG node is skipped iff every control predecessor is skipped (each state compared with the skipped state): a predecessor that has already completed never counts as skipped, so the order in which a completion and a skip are collected does not matter (shared with C02.ready-guards)", 1)
+	reportSkipExact(w, r, "C03.skip-decision-order-free")
+
 	// ---- visits-all: every submitted / completed task and every target channel is processed
 	r.Rule("C03.visits-all", "the loops over tasks, completed tasks, written channels and ready channels in the scheduler are left only when exhausted or with an error", 8)
 	ruleLoopsTotal(w, r, "C03.visits-all", []*ssa.Function{
@@ -638,4 +716,15 @@ func pollAllCheck(w *World, r *Report, rule string) {
 		r.Check(inner == 0 && fromRange, rule, "getFromReadyChannels polls every channel", getCall.Pos(), "get is called for every entry of c.channels without a filter", "some channels are not polled in a round (a node that became ready through a skip report is never scheduled, depending on completion order)")
 	}
 
+}
+
+// isInterruptLike: the returned error value is one of the interrupt error objects built by the handlers (a successful
+// interrupt is a "continuation" for the purposes of completeness: the checkpoint has been written).
+func isInterruptLike(v ssa.Value) bool {
+	mi, ok := v.(*ssa.MakeInterface)
+	if !ok {
+		return false
+	}
+	n := namedOf(deref(mi.X.Type()))
+	return n != nil && (n.Obj().Name() == "interruptError" || n.Obj().Name() == "subGraphInterruptError")
 }
